@@ -339,11 +339,14 @@ def _guards_to_else(helper):
           rest                  ->                               form with tail returns only, so that it can be expanded at its call sites."""
     def fold(stmts):
         for i, st in enumerate(stmts):
-            if isinstance(st, ast.If) and not st.orelse and st.body and isinstance(st.body[-1], ast.Return) and st.body[-1].value is None and i + 1 < len(stmts) \
+            if isinstance(st, ast.If) and not st.orelse and st.body and isinstance(st.body[-1], ast.Return) and i + 1 < len(stmts) \
                     and not any(isinstance(y, ast.Return) for b in st.body[:-1] for y in ast.walk(b)):
                 rest = stmts[i + 1:]
                 fold(rest)
-                st.body = st.body[:-1] or [ast.copy_location(ast.Pass(), st)]
+                if st.body[-1].value is None:
+                    st.body = st.body[:-1] or [ast.copy_location(ast.Pass(), st)]
+                # (a valued early return stays: both arms of the if/else then end in a return, which the expansion turns into
+                # assignments to the call's target)
                 st.orelse = rest
                 del stmts[i + 1:]
                 return
@@ -438,6 +441,20 @@ def inline_module(tree, modname):
                                 pre_ = ast.Assign(targets=[ast.Name(id=tmpn, ctx=ast.Store())], value=v0.args[0])
                                 ast.copy_location(pre_, s)
                                 v0.args[0] = ast.copy_location(ast.Name(id=tmpn, ctx=ast.Load()), v0)
+                                ast.fix_missing_locations(pre_)
+                                stmts[i:i] = [pre_]
+                                s = pre_
+                                changed = True
+                        # helper(...)(args): the helper's result is the callee - named first as well (the callee is evaluated
+                        # before the arguments, so the order is the same)
+                        v0 = getattr(s, "value", None)
+                        if isinstance(s, (ast.Assign, ast.Return, ast.Expr)) and isinstance(v0, ast.Call) and isinstance(v0.func, ast.Call) \
+                                and match(v0.func) is not None and _inlinable(match(v0.func)) and not _pure_decision(match(v0.func)):
+                            tmpn = "%s__val" % match(v0.func).name.lstrip("_")
+                            if not any(isinstance(y, ast.Name) and y.id == tmpn for y in ast.walk(caller)):
+                                pre_ = ast.Assign(targets=[ast.Name(id=tmpn, ctx=ast.Store())], value=v0.func)
+                                ast.copy_location(pre_, s)
+                                v0.func = ast.copy_location(ast.Name(id=tmpn, ctx=ast.Load()), v0)
                                 ast.fix_missing_locations(pre_)
                                 stmts[i:i] = [pre_]
                                 s = pre_
@@ -892,8 +909,14 @@ def _propagate_self_snapshots(fn):
                     rewrite(sub)
             for h in getattr(st, "handlers", []) or []:
                 rewrite(h.body)
+            chain_attrs = set()
+            if isinstance(st, ast.Assign) and isinstance(st.value, ast.Attribute) and _is_chain(st.value):
+                e_ = st.value
+                while isinstance(e_, ast.Attribute):
+                    chain_attrs.add(e_.attr)
+                    e_ = e_.value
             if isinstance(st, ast.Assign) and len(st.targets) == 1 and isinstance(st.targets[0], ast.Name) and isinstance(st.value, ast.Attribute) \
-                    and isinstance(st.value.value, ast.Name) and st.value.value.id == "self" and st.value.attr not in stored_attrs:
+                    and _is_chain(st.value) and _chain_root(st.value) == "self" and not (chain_attrs & stored_attrs):
                 x = st.targets[0].id
                 total = mentions(fn, x)
                 if store_count.get(x, 0) == 1 and x not in params and x not in nested and total >= 1:
@@ -1253,6 +1276,26 @@ def _sink_flag_test(fn):
                                     a.extend(copy.deepcopy(body))
                             del stmts[k + 1]
                             continue
+                        # an arm may also end with `flag = E` for an expression E (`needs = task._active`): there the test becomes
+                        # `if E:` in place of the assignment (the flag is read nowhere else)
+                        def tail_expr(a):
+                            if a and isinstance(a[-1], ast.Assign) and len(a[-1].targets) == 1 and isinstance(a[-1].targets[0], ast.Name) and a[-1].targets[0].id == t.id \
+                                    and not any(isinstance(y, ast.Name) and y.id == t.id and isinstance(y.ctx, ast.Store) for x_ in a[:-1] for y in ast.walk(x_)):
+                                return a[-1].value
+                            return None
+                        tails = [tail_expr(a) for a in lv]
+                        if all((c is not None) or (e_ is not None) for c, e_ in zip(consts, tails)):
+                            body = stmts[k + 1].body
+                            for a, c, e_ in zip(lv, consts, tails):
+                                if c is not None:
+                                    if c == pos:
+                                        a.extend(copy.deepcopy(body))
+                                else:
+                                    cond = copy.deepcopy(e_) if pos else ast.UnaryOp(op=ast.Not(), operand=copy.deepcopy(e_))
+                                    a[-1] = ast.copy_location(ast.If(test=cond, body=copy.deepcopy(body), orelse=[]), a[-1])
+                                    ast.fix_missing_locations(a[-1])
+                            del stmts[k + 1]
+                            continue
             k += 1
     rewrite(fn.body)
 
@@ -1321,6 +1364,8 @@ def post_inline_normalize(tree):
     statement forms the rules are written against."""
     fns = [n for n in ast.walk(tree) if isinstance(n, (ast.FunctionDef, ast.AsyncFunctionDef))]
     for fn in fns:
+        _drop_self_assign(fn)
+    for fn in fns:
         _lower_ifexp(fn)
     for fn in fns:
         _split_tuple_assigns(fn)
@@ -1330,6 +1375,11 @@ def post_inline_normalize(tree):
         _inline_single_use_temps(fn)
     for fn in fns:
         _return_temp(fn)
+    for fn in fns:
+        # (an expanded helper brings its own explaining locals: `deps = task._dependencies`)
+        _propagate_self_snapshots(fn)
+        _propagate_aliases(fn)
+        _for_over_temp(fn)
     for n in ast.walk(tree):
         if isinstance(n, (ast.expr, ast.stmt)) and not hasattr(n, "lineno"):
             n.lineno = 1
@@ -1529,6 +1579,106 @@ def _closure_factory_to_def(tree):
         walk(fn.body)
 
 
+def _unpack_to_subscripts(fn):
+    """`_, x = E` / `x, _ = E` (a two-element unpacking of one call's result that throws one element away) is written as
+    `t = E; x = t[1]` / `x = t[0]`: the rules that follow "the element of the winning pair" see the subscript they look for.  (For
+    the tuples such calls produce, unpacking and indexing select the same element.)"""
+    names = set(y.id for y in ast.walk(fn) if isinstance(y, ast.Name))
+
+    def process(stmts):
+        k = 0
+        while k < len(stmts):
+            st = stmts[k]
+            for fld in ("body", "orelse", "finalbody"):
+                sub = getattr(st, fld, None)
+                if isinstance(sub, list) and sub and isinstance(sub[0], ast.stmt) and not isinstance(st, (ast.FunctionDef, ast.AsyncFunctionDef, ast.ClassDef)):
+                    process(sub)
+            for h in getattr(st, "handlers", []) or []:
+                process(h.body)
+            if isinstance(st, ast.Assign) and len(st.targets) == 1 and isinstance(st.targets[0], ast.Tuple) and len(st.targets[0].elts) == 2 \
+                    and all(isinstance(e, ast.Name) for e in st.targets[0].elts) and isinstance(st.value, ast.Call) \
+                    and sum(1 for e in st.targets[0].elts if e.id == "_") == 1:
+                keep = [(i, e) for i, e in enumerate(st.targets[0].elts) if e.id != "_"][0]
+                tmp = "%s__pair" % keep[1].id
+                if tmp not in names:
+                    a1 = ast.copy_location(ast.Assign(targets=[ast.Name(id=tmp, ctx=ast.Store())], value=st.value), st)
+                    a2 = ast.copy_location(ast.Assign(targets=[ast.Name(id=keep[1].id, ctx=ast.Store())],
+                                                      value=ast.Subscript(value=ast.Name(id=tmp, ctx=ast.Load()), slice=ast.Constant(value=keep[0]), ctx=ast.Load())), st)
+                    ast.fix_missing_locations(a1)
+                    ast.fix_missing_locations(a2)
+                    stmts[k:k + 1] = [a1, a2]
+                    k += 2
+                    continue
+            k += 1
+    process(fn.body)
+
+
+def _drop_self_assign(fn):
+    """`x = x` for a local x (what the expansion of `x = helper(x, ...)` leaves for the helper's `return first_argument` arm) does nothing."""
+    def process(stmts):
+        for i, st in enumerate(list(stmts)):
+            for fld in ("body", "orelse", "finalbody"):
+                sub = getattr(st, fld, None)
+                if isinstance(sub, list) and sub and isinstance(sub[0], ast.stmt) and not isinstance(st, (ast.FunctionDef, ast.AsyncFunctionDef, ast.ClassDef)):
+                    process(sub)
+            for h in getattr(st, "handlers", []) or []:
+                process(h.body)
+        keep = [st for st in stmts if not (isinstance(st, ast.Assign) and len(st.targets) == 1 and isinstance(st.targets[0], ast.Name)
+                                           and isinstance(st.value, ast.Name) and st.value.id == st.targets[0].id)]
+        if len(keep) != len(stmts):
+            stmts[:] = keep or [ast.copy_location(ast.Pass(), stmts[0])]
+    process(fn.body)
+
+
+def _for_over_temp(fn):
+    """   t = a.b.c                    A local that names an attribute chain (no call) for the loop right after it, and is mentioned
+          for x in t: ...   ->  for x in a.b.c: ...     nowhere else, is the chain itself: the iterable is evaluated once, at the same point."""
+    def count(name):
+        return sum(1 for y in ast.walk(fn) if isinstance(y, ast.Name) and y.id == name)
+
+    def process(stmts):
+        k = 0
+        while k < len(stmts):
+            st = stmts[k]
+            for fld in ("body", "orelse", "finalbody"):
+                sub = getattr(st, fld, None)
+                if isinstance(sub, list) and sub and isinstance(sub[0], ast.stmt) and not isinstance(st, (ast.FunctionDef, ast.AsyncFunctionDef, ast.ClassDef)):
+                    process(sub)
+            for h in getattr(st, "handlers", []) or []:
+                process(h.body)
+            if k + 1 < len(stmts) and isinstance(st, ast.Assign) and len(st.targets) == 1 and isinstance(st.targets[0], ast.Name) \
+                    and isinstance(st.value, ast.Attribute) and _is_chain(st.value) and isinstance(stmts[k + 1], ast.For) \
+                    and isinstance(stmts[k + 1].iter, ast.Name) and stmts[k + 1].iter.id == st.targets[0].id and count(st.targets[0].id) == 2:
+                stmts[k + 1].iter = st.value
+                del stmts[k]
+                continue
+            # `t = E` / `if t:` (or `if not t:`), t mentioned nowhere else: the condition is E, evaluated at the same point
+            # (when E runs nothing - no call - plain local assignments that run nothing either may stand in between)
+            j = k + 1
+            if isinstance(st, ast.Assign) and len(st.targets) == 1 and isinstance(st.targets[0], ast.Name) \
+                    and not any(isinstance(y, (ast.Call, ast.Yield, ast.YieldFrom, ast.Await, ast.NamedExpr)) for y in ast.walk(st.value)):
+                reads = set(y.id for y in ast.walk(st.value) if isinstance(y, ast.Name))
+                while j < len(stmts) and isinstance(stmts[j], ast.Assign) and len(stmts[j].targets) == 1 and isinstance(stmts[j].targets[0], ast.Name) \
+                        and stmts[j].targets[0].id not in reads and stmts[j].targets[0].id != st.targets[0].id \
+                        and not any(isinstance(y, (ast.Call, ast.Yield, ast.YieldFrom, ast.Await, ast.NamedExpr)) for y in ast.walk(stmts[j].value)) \
+                        and not any(isinstance(y, ast.Name) and y.id == st.targets[0].id for y in ast.walk(stmts[j].value)):
+                    j += 1
+            if j < len(stmts) and isinstance(st, ast.Assign) and len(st.targets) == 1 and isinstance(st.targets[0], ast.Name) \
+                    and isinstance(stmts[j], ast.If) and count(st.targets[0].id) == 2 \
+                    and not any(isinstance(y, (ast.Yield, ast.YieldFrom, ast.Await, ast.NamedExpr)) for y in ast.walk(st.value)):
+                tst = stmts[j].test
+                inner = tst.operand if isinstance(tst, ast.UnaryOp) and isinstance(tst.op, ast.Not) else tst
+                if isinstance(inner, ast.Name) and inner.id == st.targets[0].id and isinstance(st.value, (ast.Compare, ast.Call, ast.BoolOp, ast.UnaryOp, ast.Attribute)):
+                    if inner is tst:
+                        stmts[j].test = st.value
+                    else:
+                        tst.operand = st.value
+                    del stmts[k]
+                    continue
+            k += 1
+    process(fn.body)
+
+
 def _parallel_counter_to_index(fn):
     """   c = K                                   A local that counts the iterations of a `for v in range(n)` loop by hand - bound to an
           for v in range(n):          for v in range(n):      integer constant right before the loop, incremented by one as the first statement of
@@ -1593,13 +1743,17 @@ def normalize_module(tree):
     for fn in [n for n in ast.walk(tree) if isinstance(n, (ast.FunctionDef, ast.AsyncFunctionDef))]:
         _lower_bool_flags(fn)
     for fn in [n for n in ast.walk(tree) if isinstance(n, (ast.FunctionDef, ast.AsyncFunctionDef))]:
+        _sink_flag_test(fn)
+    for fn in [n for n in ast.walk(tree) if isinstance(n, (ast.FunctionDef, ast.AsyncFunctionDef))]:
         _index_loop_to_for(fn)
     for fn in [n for n in ast.walk(tree) if isinstance(n, (ast.FunctionDef, ast.AsyncFunctionDef))]:
         _parallel_counter_to_index(fn)
+        _for_over_temp(fn)
     for fn in [n for n in ast.walk(tree) if isinstance(n, (ast.FunctionDef, ast.AsyncFunctionDef))]:
         _inline_single_use_temps(fn)
     for fn in [n for n in ast.walk(tree) if isinstance(n, (ast.FunctionDef, ast.AsyncFunctionDef))]:
         _split_tuple_assigns(fn)
+        _unpack_to_subscripts(fn)
     stored_anywhere = set(n.attr for n in ast.walk(tree) if isinstance(n, ast.Attribute) and isinstance(n.ctx, (ast.Store, ast.Del)))
     class_level = set(t.id for c in ast.walk(tree) if isinstance(c, ast.ClassDef) for st in c.body if isinstance(st, ast.Assign)
                       for t in st.targets if isinstance(t, ast.Name) and isinstance(st.value, (ast.Dict, ast.List, ast.Set, ast.Call)))
